@@ -32,10 +32,12 @@ Record hq := mkHQ {
   q_db : hookid -> list entry;            (* per hook: queued entries in key order *)
   q_idx : N;                              (* Server.qidx *)
   q_taken : hookid -> option (list entry);(* Some l: proc has deleted l from the db and is sending it *)
-  q_delivered : hookid -> list entry      (* ghost: entries for which epm.Send returned nil, in send order *)
+  q_delivered : hookid -> list entry;     (* ghost: entries for which epm.Send returned nil, in send order *)
+  q_pidx : N                              (* the value stored under "hook:idx" in queue.db: what Server.qidx is
+                                             restored from when the process starts *)
 }.
 
-Definition hq_init : hq := mkHQ (fun _ => []) 0 (fun _ => None) (fun _ => []).
+Definition hq_init : hq := mkHQ (fun _ => []) 0 (fun _ => None) (fun _ => []) 0.
 
 Definition updf {A} (f : hookid -> A) (h : hookid) (x : A) : hookid -> A :=
   fun i => if N.eqb i h then x else f i.
@@ -50,14 +52,15 @@ Fixpoint db_set (e : entry) (l : list entry) : list entry :=
       else x :: db_set e r
   end.
 
-(* queueHooks: one transaction, for _, msg := range wmsgs { s.qidx++; tx.Set(prefix+qidx, msg, 30s) } *)
+(* queueHooks: one transaction, for _, msg := range wmsgs { s.qidx++; tx.Set(prefix+qidx, msg, 30s) };
+   tx.Set("hook:idx", s.qidx)  -- the persisted counter is the in-memory one after the increments *)
 Fixpoint enqueue (now : Z) (msgs : list (hookid * msgid)) (q : hq) : hq :=
   match msgs with
   | [] => q
   | (h, m) :: r =>
       let i := N.succ (q_idx q) in
       let e := mkEntry i h m (now + hook_ttl) in
-      enqueue now r (mkHQ (updf (q_db q) h (db_set e (q_db q h))) i (q_taken q) (q_delivered q))
+      enqueue now r (mkHQ (updf (q_db q) h (db_set e (q_db q h))) i (q_taken q) (q_delivered q) i)
   end.
 
 (* an entry is visible at `now` unless time.Now().After(exat) *)
@@ -83,11 +86,15 @@ Definition reinsert (now : Z) (unsent : list entry) (db : list entry) : list ent
 
 Inductive qev :=
 | Enq (now : Z) (msgs : list (hookid * msgid))   (* a write: the already sorted webhook messages of queueHooks *)
-| Mgr (h : hookid) (now : Z) (outs : list bool). (* the manager of h runs the next half of proc:
+| Mgr (h : hookid) (now : Z) (outs : list bool)  (* the manager of h runs the next half of proc:
                                                     idle -> first transaction (read + delete);
                                                     busy -> sends, and on failure the second transaction *)
+| Restart (now : Z).                             (* the process dies and starts again on the same directory:
+                                                    queue.db survives (entries and "hook:idx"), Server.qidx is
+                                                    read back from "hook:idx", whatever a manager had deleted
+                                                    and was sending is gone *)
 
-Definition qtime (e : qev) : Z := match e with Enq t _ => t | Mgr _ t _ => t end.
+Definition qtime (e : qev) : Z := match e with Enq t _ => t | Mgr _ t _ => t | Restart t => t end.
 
 Definition qstep (q : hq) (ev : qev) : hq :=
   match ev with
@@ -96,12 +103,13 @@ Definition qstep (q : hq) (ev : qev) : hq :=
       match q_taken q h with
       | None =>
           mkHQ (updf (q_db q) h []) (q_idx q)
-               (updf (q_taken q) h (Some (filter (alive now) (q_db q h)))) (q_delivered q)
+               (updf (q_taken q) h (Some (filter (alive now) (q_db q h)))) (q_delivered q) (q_pidx q)
       | Some tk =>
           let '(sent, unsent) := send_all outs tk in
           mkHQ (updf (q_db q) h (reinsert now unsent (q_db q h))) (q_idx q)
-               (updf (q_taken q) h None) (updf (q_delivered q) h (q_delivered q h ++ sent))
+               (updf (q_taken q) h None) (updf (q_delivered q) h (q_delivered q h ++ sent)) (q_pidx q)
       end
+  | Restart _ => mkHQ (q_db q) (q_pidx q) (fun _ => None) (q_delivered q) (q_pidx q)
   end.
 
 Definition qrun (q : hq) (evs : list qev) : hq := fold_left qstep evs q.
@@ -118,6 +126,16 @@ Fixpoint enq_msgs (h : hookid) (evs : list qev) : list msgid :=
   | [] => []
   | Enq _ msgs :: r => map snd (filter (fun hm => N.eqb (fst hm) h) msgs) ++ enq_msgs h r
   | Mgr _ _ _ :: r => enq_msgs h r
+  | Restart _ :: r => enq_msgs h r
+  end.
+
+(* restarts that happen while no manager is between its two transactions (what a manager has deleted
+   and not yet sent or re-inserted at the kill instant is lost: stated limit) *)
+Fixpoint quiet (q : hq) (evs : list qev) : Prop :=
+  match evs with
+  | [] => True
+  | ev :: r =>
+      (match ev with Restart _ => forall h, q_taken q h = None | _ => True end) /\ quiet (qstep q ev) r
   end.
 
 (* ------------------------------------------------------------------------------------------ *)
